@@ -165,7 +165,7 @@ def share_switch_names(spec: dict) -> t.Optional[dict]:
     return sp if shared else None
 
 
-def with_inheritance(spec: dict) -> t.Optional[dict]:
+def with_inheritance(spec: dict, same_mode_only: bool = True) -> t.Optional[dict]:
     """Variant in which every non-input node class derives from the previous plain node class of the listing (node
     classes of one pipeline forming an inheritance chain). None if fewer than two eligible nodes."""
     sp = json.loads(json.dumps(spec))
@@ -175,7 +175,7 @@ def with_inheritance(spec: dict) -> t.Optional[dict]:
     prev = None
     for n in names:
         nd = sp['nodes'][n]
-        if prev is not None and sp['nodes'][prev].get('mode', 'async') == nd.get('mode', 'async'):
+        if prev is not None and (not same_mode_only or sp['nodes'][prev].get('mode', 'async') == nd.get('mode', 'async')):
             nd['extends'] = prev
         prev = n
     return sp
